@@ -528,6 +528,34 @@ func Cow(p *core.Prog, r *core.Report) {
 			if !bad {
 				r.OK(rule, site+":errcheck", p.Pos(c.Pos()), "the expression is used only where the compile error is known to be nil")
 			}
+			// the expression is only ever used through the regexp engine (matching / searching / replacing): a
+			// shortcut that inspects it (LiteralPrefix, NumSubexp …) and decides otherwise no longer "behaves exactly
+			// like Go's regexp package compiled from that very pattern"
+			engine := map[string]bool{"MatchString": true, "Match": true, "MatchReader": true, "String": true, "Split": true}
+			var odd []string
+			for _, u := range core.Refs(re) {
+				uc, ok := u.(ssa.CallInstruction)
+				if !ok {
+					continue
+				}
+				ug := core.StaticCallee(uc)
+				if ug == nil || ug.Signature.Recv() == nil || len(uc.Common().Args) == 0 || uc.Common().Args[0] != re {
+					continue
+				}
+				if !strings.HasPrefix(core.QualName(ug), "(*regexp.Regexp).") {
+					continue
+				}
+				name := ug.Name()
+				if engine[name] || strings.HasPrefix(name, "Find") || strings.HasPrefix(name, "ReplaceAll") {
+					continue
+				}
+				odd = append(odd, name)
+			}
+			if len(odd) > 0 {
+				r.Bad(rule, site+":engine-only", p.Pos(c.Pos()), "the compiled expression is inspected through "+strings.Join(uniq(odd), ", ")+" instead of being run by the regexp engine: a verdict derived from that is not the verdict of the pattern")
+			} else {
+				r.OK(rule, site+":engine-only", p.Pos(c.Pos()), "the compiled expression is only used through matching / searching / replacing methods")
+			}
 			// isolation: inside a loop over several patterns, a pattern that does not compile must not end the
 			// loop — the patterns after it (in map order) would never be consulted
 			if errV != nil {
